@@ -184,6 +184,7 @@ def check(ck):
     r16_4(ck)
     r16_6(ck)
     r16_7(ck)
+    r16_8(ck)
 
 
 def r16_1(ck):
@@ -593,3 +594,68 @@ def r16_7(ck):
                    'written into them and reaches all the others' % sorted(
                        bad), stmt)
     ck.floor('R16.7', m, 1, 'merges in merge_overrides')
+
+
+def r16_8(ck):
+    ck.rule('R16.8', 'the store entry point reads back what was put in: '
+            'get_processes keeps exactly the processes that are not steps, '
+            'get_steps exactly the steps, both descend into every branch; '
+            '_generate_paths stores each process with its topology, its '
+            'flow entry and the schema including overrides')
+    for q, pol in (('Store.get_processes', 'falsy'),
+                   ('Store.get_steps', 'truthy')):
+        f = ck.fn(q, 'core.store')
+        cfg = cfg_of(f.node)
+        stores = [s2 for s2 in A.walk_no_nested(f.node)
+                  if isinstance(s2, ast.Assign) and isinstance(
+                      s2.targets[0], ast.Subscript) and A.unparse(
+                      s2.value).endswith('.value')]
+        ok = False
+        for s2 in stores:
+            g = cfg.guards(cfg.node(s2))
+            ok = any(a[0] == pol and a[1].endswith('.is_step()')
+                     for a in g) and any(
+                a[0] == 'isinstance' and 'Process' in a[2] for a in g)
+        ck.require(ok, 'R16.8', f, stores[0] if stores else f.node.name,
+                   '%s selects by %s is_step()' % (q, 'not' if pol ==
+                                                   'falsy' else ''),
+                   '%s no longer selects on is_step(): steps and processes '
+                   'are mixed up when an engine is built from a store' % q)
+        rec = [c for c in A.calls_in(f.node, f.name)
+               if not A.is_name(A.call_receiver(c), 'self')]
+        ck.require(bool(rec), 'R16.8', f, f.node.name,
+                   'branches are descended into', None)
+    gp = ck.fn('Store._generate_paths', 'core.store')
+    cfg = cfg_of(gp.node)
+    sch = None
+    for d in ast.walk(gp.node):
+        if isinstance(d, ast.Dict) and any(
+                isinstance(k, ast.Constant) and k.value == '_topology'
+                for k in d.keys):
+            sch = d
+    ok = False
+    if sch is not None:
+        kv = {k.value: v for k, v in zip(sch.keys, sch.values)
+              if isinstance(k, ast.Constant)}
+        ok = A.is_name(kv.get('_value'), 'subprocess') and A.is_name(
+            kv.get('_topology'), 'subtopology') and isinstance(
+            kv.get('_updater'), ast.Constant) and \
+            kv['_updater'].value == 'set'
+    ck.require(ok, 'R16.8', gp, sch if sch is not None else gp.node.name,
+               "a process node holds the process ('_value'), its own "
+               "topology and the 'set' updater", None)
+    sets = [s2 for s2 in A.walk_no_nested(gp.node)
+            if isinstance(s2, ast.Assign) and A.unparse(
+                s2.targets[0]) == 'subprocess.schema']
+    ports = [c for c in A.calls_in(gp.node, '_topology_ports')]
+    ok = bool(sets) and bool(ports) and isinstance(
+        sets[0].value, ast.Call) and A.call_name(
+        sets[0].value) == 'get_schema' and cfg.dominates(
+        cfg.node(sets[0]), cfg.node(ports[0])) and A.unparse(
+        A.arg_of(ports[0], 0)) == 'subprocess.schema' and A.is_name(
+        A.arg_of(ports[0], 1), 'subtopology')
+    ck.require(ok, 'R16.8', gp, ports[0] if ports else gp.node.name,
+               "the ports are distributed from the process's get_schema() "
+               '(overrides included) with its own topology',
+               '_generate_paths does not distribute subprocess.get_schema() '
+               'with the process topology')
